@@ -387,6 +387,11 @@ def main():
             warn.append("WARN vacuity %s: expected witnesses not reached: %s" % (name, missing))
         if inc:
             warn.append("WARN inconclusive %s: %s" % (name, json.dumps(inc)[:600]))
+        if wit.get("end:blocked") and "SCHED_PREEMPT" in (r["env"] or {}):
+            # schedule-exploring run: schedules in which every goroutine ends up blocked (a deadlock of the code under
+            # test); not a violation of a safety property, recorded with the evidence
+            fe["deadlocked_schedules"] = wit["end:blocked"]
+            warn.append("NOTE deadlock %s: %d explored schedule(s) end with every goroutine blocked (see DESIGN 0.4a)" % (name, wit["end:blocked"]))
         if fr.get("truncated"):
             warn.append("WARN truncated %s: path/time budget exhausted after %d paths" % (name, fr["paths"]))
         # group counterexamples: per label, those matching a listed known finding and the others;
